@@ -28,6 +28,10 @@ func c05CLICases(tier string) []engine.Case {
 				for _, a := range docs {
 					for _, b := range docs {
 						out = append(out, engine.Case{Kind: "c05cli:" + bin, Leg: "cli/" + bin, A: a, B: b, X: strings.TrimSpace(fl + " -f " + f)})
+						if len(a) <= 6 || len(b) <= 6 {
+							// the exit status must not depend on where the output goes
+							out = append(out, engine.Case{Kind: "c05cli:" + bin, Leg: "cli-o/" + bin, A: a, B: b, X: strings.TrimSpace(fl + " -f " + f + " @o")})
+						}
 					}
 				}
 			}
@@ -81,7 +85,15 @@ func runC05CLI(c *engine.Case) engine.Result {
 	defer os.RemoveAll(dir)
 	fa := cli.WriteFile(dir, "a.json", c.A)
 	fb := cli.WriteFile(dir, "b.json", c.B)
-	args := append(strings.Fields(c.X), fa, fb)
+	var args []string
+	for _, t := range strings.Fields(c.X) {
+		if t == "@o" {
+			args = append(args, "-o", dir+"/out.txt")
+		} else {
+			args = append(args, t)
+		}
+	}
+	args = append(args, fa, fb)
 	out := cli.Run(dir, cli.Bin(bin), args, nil)
 	res := engine.Result{Transitions: 1, Traces: 1, Nontrivial: c.A != c.B}
 	crash := strings.Contains(out.Stderr, "panic:") || strings.Contains(out.Stderr, "goroutine ")
